@@ -1,4 +1,5 @@
 import OdxVerif.Proofs.CompCore
+import OdxVerif.Proofs.ItemLoop
 /-! Compositional components (task W8), closure under the field kinds: a STATIC-FIELD / DYNAMIC-LENGTH-FIELD /
     END-OF-PDU-FIELD whose items are components (`DComp`s over one item DOP — each item has its own value, hence its own
     component) is a component.  Generalises `StaticLeaf` / `DynLeaf` / `EopLeaf` of `Proofs/FieldTier*.lean` from tier-2
@@ -331,8 +332,13 @@ theorem encodeItemsC_eq (item : Dop) (eop : Bool) : ∀ (cs : List DComp) (m : N
         (fun h => by rw [hne] at h; cases h)
       rw [hdop] at hrun1
       refine ⟨s1, ?_, ?_, hcb1⟩
-      · simp only [DComps.sups, List.map_cons, List.map_nil, encodeItems, bind, run_bind, run_modifyS]
-        exact hrun1
+      · simp only [DComps.sups, List.map_cons, List.map_nil]
+        -- the item occupies `c.size ≥ 1` bytes: the cursor check of the repaired encoder passes
+        refine encodeItems_one_ok _ eop f _ s s1 true hrun1 ?_
+        have := hc1.2.2.2.1
+        rw [hok.enc_cursor] at this
+        simp only [] at this
+        omega
       · have h0 : SameCore { s with isEndOfPdu := eop } s := ⟨rfl, rfl, rfl, rfl, rfl⟩
         exact hc1.trans (hgk.core _ _ h0)
     | cons c2 rest =>
@@ -344,7 +350,11 @@ theorem encodeItemsC_eq (item : Dop) (eop : Bool) : ∀ (cs : List DComp) (m : N
         dynItemsC_good _ (fun x hx => ⟨(hall x (List.mem_cons_of_mem _ hx)).1.1, (hall x (List.mem_cons_of_mem _ hx)).2.1⟩)
       refine ⟨s3, ?_, ?_, hcb3⟩
       · have hrun3' : encodeItems item eop f (c2.sup :: DComps.sups rest) s1 true = .ok ((), s3) := hrun3
-        simp only [DComps.sups, List.map_cons, encodeItems, bind, run_bind, hrun1]
+        simp only [DComps.sups, List.map_cons]
+        rw [encodeItems_cons_ok _ eop f _ _ _ s s1 true hrun1 (by
+          have := hc1.2.2.2.1
+          rw [hok.enc_cursor] at this
+          omega)]
         exact hrun3'
       · show SameCore s3 ((Pair.list ((c2 :: rest).map dynItemC)).enc (c.pair.enc s))
         exact hc3.trans (hg.core _ _ hc1)
